@@ -13,6 +13,7 @@ AGENTS = [None, 'MyCrawler/1.0 (+http://example.invalid/bot)', 'Mozilla/5.0 (com
 PREFIXES = ['/d1/', '/d1/d2/', '/other/', '/a.html', '/b.html', '/img/', '/UP/', '/index.html', '/x.html', '/y/', '/static/', '/d1/p',
             '/a.html?', '/index.html?id=', '/b.html?id=1', '/d1/p1.html?', '/other/q.html?id=0', '/?',
             '/caf\u00e9/', '/caf%C3%A9/', '/caf\u00e9/m']       # raw UTF-8 and percent-encoded spellings of one path
+WILD = ['/*.html$', '/*.html', '/d1/*.html$', '/d1/*.html', '/*.png$', '/*.png', '/*.css$', '/*.css', '/*?', '/d1/*/p', '/*/d2/', '/*.html?id=$', '/*l$']
 
 
 def gen_robots(tape, r):
@@ -41,6 +42,14 @@ def gen_robots(tape, r):
         elif k == 1:
             lines.append('Disallow: /')
             r.probes['robots_disallow'] += 1
+        elif k == 2 and tape.chance(1, 2, 'rb.wild'):
+            # rules with '*' and a final '$' (RFC 9309 2.2.3); Disallow lines only, so that the order of evaluation cannot matter.
+            # The anchored and the unanchored form of one rule mean different things for a URL with a query.
+            n = tape.between(1, 3, 'rb.nrules')
+            for _ in range(n):
+                lines.append('Disallow: %s' % WILD[tape.draw(len(WILD), 'rb.wildrule')])
+            r.probes['robots_disallow'] += 1
+            r.probes['robots_wildcard_rules'] += 1
         else:
             n = tape.between(1, 3, 'rb.nrules')
             for _ in range(n):
